@@ -1,4 +1,4 @@
-//go:build verif && !verifint
+//go:build verif && !vi_shuffle_c20
 
 package shuffle
 
